@@ -576,6 +576,18 @@ func c07ExpectCell(t *c08Ty, at, et string, toks []string, depth int) (string, [
 			}
 			return "s:" + fmt.Sprintf("%x", fmt.Sprintf("%s%s.%04d", sign, ip, fp.Int64())), toks[1:], true
 		}
+		if strings.HasPrefix(tok, "e:") { // a dictionary slot: the entry the row's index selects
+			parts := strings.SplitN(tok[2:], ":", 2)
+			if len(parts) != 2 {
+				return "", nil, false
+			}
+			idx, err := strconv.Atoi(parts[0])
+			hs := strings.Split(parts[1], ",")
+			if err != nil || idx < 0 || idx >= len(hs) {
+				return "", nil, false
+			}
+			return "s:" + hs[idx], toks[1:], true
+		}
 		return tok, toks[1:], strings.HasPrefix(tok, "s:")
 	case "bytes":
 		return tok, toks[1:], strings.HasPrefix(tok, "y:")
@@ -741,6 +753,13 @@ func c07Gen(g *Gen) {
 			} else {
 				st.Fields = append(st.Fields, f)
 			}
+		}
+		if r.Chance(18) { // a dictionary-encoded (enum) parameter, by value or by pointer
+			ft := c08Leaf("str")
+			if r.Bool() {
+				ft = c08Ptr(ft)
+			}
+			st.Fields = append(st.Fields, c08Field{Tag: Pick(r, []string{"color,enum", "kind,enum,nullable", "d,dict_string", "e,enum,default=red"}), T: ft})
 		}
 		c07AddDefaults(r, st)
 		tyToks := strings.Join(st.tokens(), " ")
